@@ -707,8 +707,9 @@ fn events(ev: &[(usize, usize)]) -> String {
     ev.iter().map(|(s, a)| format!("{},{}", s, a)).collect::<Vec<_>>().join(";")
 }
 
-fn newboxed<H: Header>(ctx: &mut Ctx, header: H, slices: &[&[u8]]) {
-    assert_eq!(size_of::<H>(), 8);
+/// `size_off`: where the header kind stores the total size (4 for the tag headers, 0 / 8 for the two structure headers)
+fn newboxed<H: Header>(ctx: &mut Ctx, header: H, slices: &[&[u8]], size_off: usize) {
+    let hs = size_of::<H>();
     alloc_track::start();
     let r = guard(|| new_boxed::<DynSizedStructure<H>>(header, slices));
     let (allocs, _) = alloc_track::stop();
@@ -718,9 +719,8 @@ fn newboxed<H: Header>(ctx: &mut Ctx, header: H, slices: &[&[u8]]) {
             let t: &DynSizedStructure<H> = &b;
             let sov = size_of_val(t);
             let all = unsafe { core::slice::from_raw_parts(raw(t), sov) };
-            // the stored size: bytes 4..8 of the three tag-header kinds
-            let total = (raw32(raw(t), 4) as usize).clamp(8, sov);
-            let head = format!("VAL sov={} hdr={} content={}", sov, hexs(&all[..8]), hexs(&all[8..total]));
+            let total = (raw32(raw(t), size_off) as usize).clamp(hs, sov);
+            let head = format!("VAL sov={} hdr={} content={}", sov, hexs(&all[..hs]), hexs(&all[hs..total]));
             alloc_track::start();
             drop(b);
             let (_, deallocs) = alloc_track::stop();
@@ -731,20 +731,34 @@ fn newboxed<H: Header>(ctx: &mut Ctx, header: H, slices: &[&[u8]]) {
 
 fn run_newboxed(ctx: &mut Ctx, a: &[Arg]) {
     let hb = a[1].b();
-    assert!(hb.len() == 8, "harness: header bytes");
     let slices: Vec<&[u8]> = a[2].l().iter().map(|x| x.b()).collect();
+    // the two structure headers: any value a loaded structure can hold (the reserved word, the checksum are arbitrary)
+    match a[0].n() {
+        3 => {
+            assert!(hb.len() == 8, "harness: header bytes");
+            let h: BootInformationHeader = unsafe { core::ptr::read_unaligned(hb.as_ptr().cast()) };
+            return newboxed(ctx, h, &slices, 0);
+        }
+        4 => {
+            assert!(hb.len() == 16 && matches!(u32::from_le_bytes([hb[4], hb[5], hb[6], hb[7]]), 0 | 4), "harness: header bytes");
+            let h: Multiboot2BasicHeader = unsafe { core::ptr::read_unaligned(hb.as_ptr().cast()) };
+            return newboxed(ctx, h, &slices, 8);
+        }
+        _ => {}
+    }
+    assert!(hb.len() == 8, "harness: header bytes");
     let w0 = u32::from_le_bytes([hb[0], hb[1], hb[2], hb[3]]);
     let w1 = u32::from_le_bytes([hb[4], hb[5], hb[6], hb[7]]);
     match a[0].n() {
-        0 => newboxed(ctx, DummyTestHeader::new(w0, w1), &slices),
-        1 => newboxed(ctx, TagHeader::new(TagTypeId::new(w0), w1), &slices),
+        0 => newboxed(ctx, DummyTestHeader::new(w0, w1), &slices, 4),
+        1 => newboxed(ctx, TagHeader::new(TagTypeId::new(w0), w1), &slices, 4),
         2 => {
             let typ = (w0 & 0xFFFF) as u16;
             let flags = (w0 >> 16) as u16;
             assert!(typ <= 10 && flags <= 1, "harness: enum-typed header field out of range");
             let typ: HeaderTagType = unsafe { core::mem::transmute(typ) };
             let flags = if flags == 0 { HeaderTagFlag::Required } else { HeaderTagFlag::Optional };
-            newboxed::<HeaderTagHeader>(ctx, HeaderTagHeader::new(typ, flags, w1), &slices)
+            newboxed::<HeaderTagHeader>(ctx, HeaderTagHeader::new(typ, flags, w1), &slices, 4)
         }
         _ => panic!("harness: bad header kind"),
     }
